@@ -464,6 +464,13 @@ func suiteC02(c *Ctx) []Suite {
 				c.R.Read(b)
 				out = append(out, Case{Op: "ctor ascii " + hx(b), Decisive: true, Nontrivial: true, Tags: []string{"ascii-domain"}}.fields("bytes"))
 			}
+			// the same through a fill: an ASCII variable takes 7-bit text only, alone and next to a sibling
+			for _, s := range []string{"25\u00b0C", "caf\xe9", "\u00e9", "\xff", "ok", "\u540d", "a\x80"} {
+				for _, tmpl := range []*Node{{Kind: "AV", Name: "v", Min: 0, Max: -1},
+					{Kind: "L", Slots: []Slot{{Child: &Node{Kind: "AV", Name: "v", Min: 0, Max: -1}}, {Child: &Node{Kind: "U", W: 1, Slots: []Slot{{U: 7}}}}}}} {
+					out = append(out, Case{Op: "fillitem " + tmpl.Proto() + " | 1 " + hxs("v") + " " + strTok(s), Decisive: true, Nontrivial: true, Tags: []string{"ascii-domain-fill"}}.fields("bytes"))
+				}
+			}
 			return out
 		}},
 		{Name: "wire/messages", Gen: func(c *Ctx) []Case {
@@ -480,13 +487,17 @@ func suiteC02(c *Ctx) []Suite {
 					o.PEllipsis = 0.3
 				}
 				item := genItem(c.R, o)
+				pbadHdr := 0.0
+				if i%10 == 9 {
+					pbadHdr = 0.5 // stream 128, function 256, a wait bit on a reply: refused, never encoded
+				}
 				if i%12 == 7 && item.Kind == "L" {
 					// the empty item (the placeholder of a missing value) as an element of a list:
 					// such a list does not encode, so the message is not complete
 					at := c.R.Intn(len(item.Slots) + 1)
 					item.Slots = append(item.Slots[:at], append([]Slot{{Child: &Node{Kind: "E"}}}, item.Slots[at:]...)...)
 				}
-				m := genMsgDesc(c.R, item, 0)
+				m := genMsgDesc(c.R, item, pbadHdr)
 				m.HSMS = i%4 == 1 // also through the constructor that takes session id and system bytes
 				steps := []string{m.newStep()}
 				// incomplete in different ways: optional W, variables, no session id
